@@ -242,6 +242,10 @@ def _validate(modname, tier, case, body, seed, funcs):
 
     jobs = [{"case": case.name, "inputs": None, "seed": seed * 1000 + i, "values": True} for i in range(case.validate)]
     res = run_concrete(modname, tier, jobs)
+    if all(r["assume_failed"] for r in res):
+        # none of the seeded points satisfied the case's assumptions: draw more before calling the case vacuous
+        more = [{"case": case.name, "inputs": None, "seed": seed * 1000 + 500 + i, "values": True} for i in range(12)]
+        res = [r for r in run_concrete(modname, tier, more) if not r["assume_failed"]][: max(1, case.validate)] or res
     val = {"points": 0, "compared": 0, "mismatches": [], "concrete_failures": [], "reached_checks": 0, "skipped": 0}
     for r in res:
         if r["assume_failed"]:
